@@ -282,11 +282,28 @@ Theorem C04_array_key_informal_refuted :
 Proof. eexists. split; [vm_compute; reflexivity|]. vm_compute. discriminate. Qed.
 Print Assumptions C04_array_key_informal_refuted.
 
-(* key:custom with list rules — written as a unique_string foreign key, reads back informal *)
-Theorem C04_key_custom_listrules_refuted :
-  not_read_back (EE [] None []) (plain [97] (PSingle (TKey (Some (KCustom [94;97;36])) None (Some (LP true false false false []))))).
+(* key:custom with list rules reads back as declared since fix 240b498 (it read back
+   informal before): no longer a refutation, an instance of the fragment *)
+Example C04_key_custom_listrules_reads_back :
+  let d := plain [97] (PSingle (TKey (Some (KCustom [94;97;36])) None (Some (LP true false false false [])))) in
+  rt_ok d = true /\ exists o, write_prop (EE [] None []) 0 d = Ok o /\ read_prop (EE [] None []) o = Ok (norm_prop (EE [] None []) 0 d).
+Proof. split; [vm_compute; reflexivity|]. eexists. split; [vm_compute; reflexivity|]. vm_compute. reflexivity. Qed.
+
+(* key:custom whose pattern is the published id62 pattern — the pattern is also written as
+   the validation pattern, which the reader's well-known table turns into key:id62 *)
+Theorem C04_key_custom_id62_pattern_refuted :
+  not_read_back (EE [] None []) (plain [97] (PSingle (TKey (Some (KCustom Id62Gen.pattern_string)) None None))).
 Proof. eexists. split; [vm_compute; reflexivity|]. vm_compute. discriminate. Qed.
-Print Assumptions C04_key_custom_listrules_refuted.
+Print Assumptions C04_key_custom_id62_pattern_refuted.
+
+(* key:custom whose pattern is one of the reader's well-known patterns, with list rules —
+   the reader fails (format not compatible with list.unique_string) *)
+Theorem C04_key_custom_wellknown_listrules_fails :
+  exists o, write_prop (EE [] None []) 0
+              (plain [97] (PSingle (TKey (Some (KCustom date_pattern)) None (Some (LP true false false false []))))) = Ok o
+            /\ is_err (read_prop (EE [] None []) o) = true.
+Proof. eexists. split; [vm_compute; reflexivity|]. vm_compute. reflexivity. Qed.
+Print Assumptions C04_key_custom_wellknown_listrules_fails.
 
 (* key without format but with list rules — reads back as informal *)
 Theorem C04_key_listrules_refuted :
@@ -312,11 +329,15 @@ Theorem C04_array_flatten_refuted :
 Proof. eexists. split; [vm_compute; reflexivity|]. vm_compute. discriminate. Qed.
 Print Assumptions C04_array_flatten_refuted.
 
-(* timestamp rules — "None Implemented": the writer emits an empty TimestampRules, the bounds are lost *)
-Theorem C04_timestamp_rules_refuted :
+(* timestamp rules — "None Implemented": the writer emits an empty TimestampRules, the bounds
+   are lost. NOT counted as a refutation of C04: no .j5s text can state a timestamp bound
+   (lib/j5reflect/value_ast.go has the Timestamp arm commented out: "unsupported scalar
+   type"), so such a declaration is not a j5s package; it exists in the source AST only.
+   Kept as a fact about the writer; rt_ok excludes it. *)
+Theorem C04_timestamp_bounds_not_written :
   not_read_back (EE [] None []) (plain [97] (PSingle (TTimestamp (Some (TSR (Some 5%Z) None None None)) None))).
 Proof. eexists. split; [vm_compute; reflexivity|]. vm_compute. discriminate. Qed.
-Print Assumptions C04_timestamp_rules_refuted.
+Print Assumptions C04_timestamp_bounds_not_written.
 
 (* object rules — minProperties / maxProperties compile to an empty constraint and are not read back *)
 Theorem C04_object_rules_refuted :
